@@ -78,7 +78,7 @@ Proof.
 Qed.
 
 Definition prim_path (reg : registry) (o : cop) (ct : str) : path :=
-  if is_none_ret (resolve o) then PNone else strategy_path reg (nd_of o) (resolve o) ct.
+  if is_none_ret (resolve o) then PNone else strategy_path reg (nd_of o) (pc_of o) (resolve o) ct.
 
 (* the response is the processed numeric primary *)
 Lemma locate_primary_num : forall reg o r p n ct,
@@ -274,6 +274,35 @@ Definition collapsed_content (r : cresp) : bool :=
   match dedup_types (map ctype_to_python (cr_content r)) [] with [_] => true | _ => false end.
 Definition the_ct (eo : option centry) : str := match eo with Some e => lower_s (c_media e) | None => [] end.
 
+Lemma prefixb_split : forall p s, prefixb p s = true -> exists r, s = p ++ r.
+Proof.
+  induction p as [|x p IH]; intros s H; [exists s; reflexivity|].
+  destruct s as [|y s]; simpl in H; [discriminate|]. apply andb_true_iff in H. destruct H as [E H].
+  apply N.eqb_eq in E. subst y. destruct (IH s H) as [r ->]. exists r. reflexivity.
+Qed.
+(* a text/* media type is not in the binary media table (regenerated tables, by computation on the "text/" prefix) *)
+Lemma text_not_binary : forall m, prefixb p_text m = true -> is_binary_media m = false.
+Proof. intros m H. destruct (prefixb_split _ _ H) as [r ->]. reflexivity. Qed.
+
+Definition raw_matches (raw : option path) (e : centry) : bool :=
+  match raw with
+  | Some PText => prefixb p_text (c_media e)
+  | Some PContent => is_binary_media (c_media e)
+  | _ => false
+  end.
+
+Lemma raw_fires_delivers : forall reg nd pc s ct e r imported,
+  st_streaming s = false -> is_stream r = false ->
+  raw_matches (raw_accessor pc (st_ret s)) e = true ->
+  delivers imported (strategy_path reg nd pc s ct) (ideal true r (Some e)) = true
+  /\ match ideal true r (Some e) with WJsonTyped _ | WJsonRaw _ => False | _ => True end.
+Proof.
+  intros reg nd pc s ct e r imported Hst Hs H. unfold strategy_path. rewrite Hst. unfold ideal. rewrite Hs. cbn [andb].
+  destruct (raw_accessor pc (st_ret s)) as [p|]; [destruct p|]; try discriminate; cbn [raw_matches] in H.
+  - rewrite (text_not_binary _ H), H. split; [reflexivity | exact I].
+  - rewrite H. split; [reflexivity | exact I].
+Qed.
+
 Lemma primary_delivers : forall reg o r eo imported,
   cprimary o = Some r ->
   distinct_strs_b (map (fun x => lower_s (c_media x)) (cr_content r)) = true ->
@@ -285,29 +314,28 @@ Lemma primary_delivers : forall reg o r eo imported,
   (forall e, eo = Some e -> is_stream r = false ->
      if json_like (c_media e)
      then single_content r || collapsed_content r || negb (mem_str (show (ctype_to_python e)) [s_str; s_bytes]) = true
-     else single_content r || collapsed_content r = false) ->
+     else raw_matches (raw_accessor (cr_content r) (st_ret (resolve o))) e
+          || negb (single_content r || collapsed_content r) = true) ->
   ideal true r eo <> WStreamItems ->
   (ideal true r eo = WStreamLines -> exists b, stream_path reg (nd_of o) (resolve o) = PStreamNdjson b) ->
-  (strategy_registers reg (nd_of o) (resolve o) = true -> imported = true) ->
+  (strategy_registers reg (nd_of o) (pc_of o) (resolve o) = true -> imported = true) ->
   delivers imported (prim_path reg o (the_ct eo)) (ideal true r eo) = true
   /\ match ideal true r eo with WJsonTyped t | WJsonRaw t => covers (st_ret (resolve o)) t = true | _ => True end.
 Proof.
   intros reg o r eo imported Hprim Hdm Hok Heo Gbi Gc Gf Gl Himp.
   assert (Hnd : nd_of o = is_ndjson_resp r) by (unfold nd_of; rewrite Hprim; reflexivity).
-  unfold prim_path. unfold resolve in *. rewrite Hprim in *.
+  assert (Hpc : pc_of o = cr_content r) by (unfold pc_of; rewrite Hprim; reflexivity).
+  unfold prim_path. rewrite Hpc in *. unfold resolve in *. rewrite Hprim in *.
   destruct (cr_content r) as [|c0 rest] eqn:Hc.
-  { (* no content *)
-    destruct eo as [e|]; [destruct Heo|]. cbn. split; [reflexivity | exact I]. }
+  { destruct eo as [e|]; [destruct Heo|]. cbn. split; [reflexivity | exact I]. }
   destruct eo as [e|]; [|discriminate]. cbn [the_ct].
   assert (Hfacts := entry_ok_facts _ e Hok Heo). destruct Hfacts as (Hpn & Hpu & Htn & Htu & Hbin).
   destruct (is_stream r) eqn:Hs.
   - (* streaming primary *)
-    assert (Hr : (match rest with [] => resolve_streaming r | _ => resolve_streaming r end) = resolve_streaming r)
-      by (destruct rest; reflexivity).
     replace (match rest with [] => if true then resolve_streaming r else mk_plain (c_type c0)
                         | _ :: _ => if true then resolve_streaming r else resolve_multi r end)
       with (resolve_streaming r) in * by (destruct rest; reflexivity).
-    clear Hr. unfold resolve_streaming in *. rewrite Hc in *.
+    unfold resolve_streaming in *. rewrite Hc in *.
     unfold ideal in *. rewrite Hs in *. cbn [andb orb] in *. rewrite Hc in *.
     destruct (existsb (fun x => is_binary_media (c_media x)) (c0 :: rest)) eqn:Hb.
     + cbn [orb]. split; [vm_compute; reflexivity | exact I].
@@ -323,19 +351,24 @@ Proof.
   - (* not a stream *)
     specialize (Gc e eq_refl eq_refl). unfold single_content, collapsed_content in Gc. rewrite Hc in Gc.
     assert (Hnb := not_stream_no_binfmt r e Hs ltac:(rewrite Hc; exact Heo)).
-    unfold ideal. rewrite Hs. cbn [andb].
     destruct rest as [|c1 rest'].
     + (* a single content type *)
-      destruct Heo as [->|[]].
-      destruct (json_like (c_media e)) eqn:Hj; [|cbn in Gc; discriminate].
-      destruct (json_like_split _ Hj) as [Hnbin Hntext]. rewrite Hnbin, Hntext.
-      destruct (Gbi e eq_refl eq_refl Hj) as [Hb Hcov].
-      unfold is_none_ret, strategy_path. cbn [mk_plain st_ret st_streaming st_mapping]. rewrite Htn, Htu.
-      change (if needs_structure (c_type e) then WJsonTyped (c_type e) else WJsonRaw (c_type e)) with (want_json (c_type e)).
-      split.
-      * apply delivers_structured_json; [exact Hb|]. intro Hsu. apply Himp.
-        unfold strategy_registers, is_none_ret. cbn [mk_plain st_ret st_streaming st_mapping]. rewrite Htn, Htu, Hsu. reflexivity.
-      * unfold want_json; destruct (needs_structure (c_type e)); exact Hcov.
+      destruct Heo as [->|[]]. cbn [orb] in Gc.
+      destruct (json_like (c_media e)) eqn:Hj.
+      * destruct (json_like_split _ Hj) as [Hnbin Hntext].
+        destruct (Gbi e eq_refl eq_refl Hj) as [Hb Hcov].
+        assert (Hraw : raw_accessor [e] (c_type e) = None) by (apply (raw_none_member _ e); auto; left; reflexivity).
+        unfold ideal. rewrite Hs. cbn [andb]. rewrite Hnbin, Hntext.
+        unfold is_none_ret, strategy_path. cbn [mk_plain st_ret st_streaming st_mapping]. rewrite Htn, Hraw, Htu.
+        change (if needs_structure (c_type e) then WJsonTyped (c_type e) else WJsonRaw (c_type e)) with (want_json (c_type e)).
+        split.
+        -- apply delivers_structured_json; [exact Hb|]. intro Hsu. apply Himp.
+           unfold strategy_registers, is_none_ret. cbn [mk_plain st_ret st_streaming st_mapping]. rewrite Htn, Hraw, Htu, Hsu. reflexivity.
+        -- unfold want_json; destruct (needs_structure (c_type e)); exact Hcov.
+      * rewrite orb_false_r in Gc. cbn [mk_plain st_ret] in Gc.
+        unfold is_none_ret. cbn [mk_plain st_ret]. rewrite Htn.
+        destruct (raw_fires_delivers reg (nd_of o) [e] (mk_plain (c_type e)) (lower_s (c_media e)) e r imported eq_refl Hs Gc) as [D W].
+        split; [exact D|]. destruct (ideal true r (Some e)); tauto.
     + (* several content types *)
       unfold resolve_multi in *. rewrite Hc in *.
       assert (Hmm : map snd (map (fun x => (c_media x, ctype_to_python x)) (c0 :: c1 :: rest')) = map ctype_to_python (c0 :: c1 :: rest'))
@@ -347,21 +380,33 @@ Proof.
         destruct (dedup_single _ _ _ Hdd) as [Htin Hall].
         apply in_map_iff in Htin. destruct Htin as (e0 & Het & He0).
         destruct (entry_ok_facts _ e0 Hok He0) as (Hpn0 & Hpu0 & _). rewrite Het in Hpn0, Hpu0.
-        destruct (json_like (c_media e)) eqn:Hj; [|cbn in Gc; discriminate].
-        destruct (json_like_split _ Hj) as [Hnbin Hntext]. rewrite Hnbin, Hntext.
-        destruct (Gbi e eq_refl eq_refl Hj) as [Hb Hcov].
-        assert (Hshow : show t = show (c_type e)).
-        { destruct (Hall (ctype_to_python e) (in_map ctype_to_python _ _ Heo)) as [F|E]; [discriminate|].
-          apply str_eqb_eq in E. rewrite json_like_python in E by exact Hj. symmetry. exact E. }
-        unfold is_none_ret, strategy_path. cbn [st_ret st_streaming st_mapping]. rewrite Hpn0, Hpu0.
-        rewrite (json_path_show reg t (c_type e) Hshow).
-        change (if needs_structure (c_type e) then WJsonTyped (c_type e) else WJsonRaw (c_type e)) with (want_json (c_type e)).
-        split.
-        -- apply delivers_structured_json; [exact Hb|]. intro Hsu. apply Himp.
-           unfold strategy_registers, is_none_ret. cbn [st_ret st_streaming st_mapping]. rewrite Hpn0, Hpu0, Hshow, Hsu. reflexivity.
-        -- unfold want_json; destruct (needs_structure (c_type e)); exact Hcov.
+        cbn [orb] in Gc.
+        destruct (json_like (c_media e)) eqn:Hj.
+        -- destruct (json_like_split _ Hj) as [Hnbin Hntext].
+           destruct (Gbi e eq_refl eq_refl Hj) as [Hb Hcov].
+           assert (Hshow : show t = show (c_type e)).
+           { destruct (Hall (ctype_to_python e) (in_map ctype_to_python _ _ Heo)) as [F|E]; [discriminate|].
+             apply str_eqb_eq in E. rewrite json_like_python in E by exact Hj. symmetry. exact E. }
+           assert (Hraw : raw_accessor (c0 :: c1 :: rest') t = None) by (apply (raw_none_member _ e); auto).
+           unfold ideal. rewrite Hs. cbn [andb]. rewrite Hnbin, Hntext.
+           unfold is_none_ret, strategy_path. cbn [st_ret st_streaming st_mapping]. rewrite Hpn0, Hraw, Hpu0.
+           rewrite (json_path_show reg t (c_type e) Hshow).
+           change (if needs_structure (c_type e) then WJsonTyped (c_type e) else WJsonRaw (c_type e)) with (want_json (c_type e)).
+           split.
+           ++ apply delivers_structured_json; [exact Hb|]. intro Hsu. apply Himp.
+              unfold strategy_registers, is_none_ret. cbn [st_ret st_streaming st_mapping]. rewrite Hpn0, Hraw, Hpu0, Hshow, Hsu. reflexivity.
+           ++ unfold want_json; destruct (needs_structure (c_type e)); exact Hcov.
+        -- rewrite orb_false_r in Gc. cbn [st_ret] in Gc.
+           unfold is_none_ret. cbn [st_ret]. rewrite Hpn0.
+           destruct (raw_fires_delivers reg (nd_of o) (c0 :: c1 :: rest')
+                       {| st_ret := t; st_streaming := false;
+                          st_mapping := Some (map (fun x => (c_media x, ctype_to_python x)) (c0 :: c1 :: rest')) |}
+                       (lower_s (c_media e)) e r imported eq_refl Hs Gc) as [D W].
+           split; [exact D|]. destruct (ideal true r (Some e)); tauto.
       * (* a Union return type with a Content-Type switch *)
-        unfold is_none_ret, strategy_path. cbn [st_ret st_streaming st_mapping].
+        assert (Hraw : raw_accessor (c0 :: c1 :: rest') (TUnion (t :: t2 :: ts)) = None) by reflexivity.
+        unfold ideal. rewrite Hs. cbn [andb].
+        unfold is_none_ret, strategy_path. cbn [st_ret st_streaming st_mapping]. rewrite Hraw.
         replace (str_eqb (show (TUnion (t :: t2 :: ts))) s_None) with false by reflexivity.
         replace (prefixb (s_Union ++ s_lb) (show (TUnion (t :: t2 :: ts)))) with true by reflexivity.
         rewrite (switch_pick reg (c0 :: c1 :: rest') e Hdm Heo). unfold switch_path.
@@ -379,7 +424,7 @@ Proof.
               change (if needs_structure (c_type e) then WJsonTyped (c_type e) else WJsonRaw (c_type e)) with (want_json (c_type e)).
               split.
               ** apply delivers_structured_json; [exact Hb|]. intro Hsu. apply Himp.
-                 unfold strategy_registers, is_none_ret. cbn [st_ret st_streaming st_mapping].
+                 unfold strategy_registers, is_none_ret. cbn [st_ret st_streaming st_mapping]. rewrite Hraw.
                  replace (str_eqb (show (TUnion (t :: t2 :: ts))) s_None) with false by reflexivity.
                  replace (prefixb (s_Union ++ s_lb) (show (TUnion (t :: t2 :: ts)))) with true by reflexivity.
                  cbn [negb andb]. apply existsb_exists. exists (c_media e, c_type e). split.
@@ -388,16 +433,7 @@ Proof.
               ** unfold want_json; destruct (needs_structure (c_type e)); exact Hcov.
 Qed.
 
-
 (* ---------- a further 2xx response of a NON-streaming operation ---------- *)
-Lemma handler_schema_In : forall cs h, handler_schema cs = Some h -> In h cs.
-Proof.
-  intros cs h H. unfold handler_schema in H.
-  destruct (find (fun e => str_eqb (c_media e) m_json_handler) cs) as [x|] eqn:F.
-  - inversion H; subst. apply find_some in F. tauto.
-  - destruct cs; [discriminate|]. inversion H; subst. left. reflexivity.
-Qed.
-
 Lemma secondary_delivers : forall reg o r e h imported ct,
   st_streaming (resolve o) = false ->
   distinct_strs_b (map (fun x => lower_s (c_media x)) (cr_content r)) = true ->
@@ -413,8 +449,9 @@ Proof.
   destruct (json_like_split _ Hj) as [Hnbin Hntext].
   assert (Hw : ideal false r (Some e) = want_json (c_type e)).
   { unfold ideal. rewrite Hs. cbn [andb]. rewrite Hnbin, Hntext. reflexivity. }
-  split; [|exact Hw]. rewrite Hw. unfold secondary_path. rewrite Hns, Hh.
-  apply delivers_structured_json; [exact Hb|]. intro Hsu. apply Himp. unfold secondary_registers. rewrite Hh. exact Hsu.
+  assert (Hraw : raw_accessor (cr_content r) (c_type e) = None) by (apply (raw_none_member _ e); auto).
+  split; [|exact Hw]. rewrite Hw. unfold secondary_path. rewrite Hns, Hh, Hraw.
+  apply delivers_structured_json; [exact Hb|]. intro Hsu. apply Himp. unfold secondary_registers. rewrite Hh, Hraw. exact Hsu.
 Qed.
 
 Lemma stream_path_facts : forall reg nd s,
@@ -484,7 +521,10 @@ Proof.
     all: try (intros e He Hs; unfold guard_F05c in Gc; cbv zeta in Gc; rewrite <- Er, He, Hpc in Gc;
               cbn [negb andb] in Gc; rewrite Hs in Gc; unfold single_content, collapsed_content;
               destruct (json_like (c_media e)); cbn [negb andb] in Gc;
-              [ rewrite orb_false_r in Gc; exact Gc | apply negb_true_iff in Gc; rewrite orb_false_r in Gc; exact Gc ]).
+              [ rewrite orb_false_r in Gc; exact Gc
+              | rewrite <- ?Eo in Gc; unfold raw_matches;
+                destruct (raw_accessor (cr_content r) (st_ret (resolve o))) as [pp|]; [destruct pp|]; cbn [andb] in Gc |- *;
+                try (rewrite Gc; reflexivity); exact Gc ]).
     all: try (intro E; unfold guard_F05f, the_want in Gf; rewrite Hpc, <- Er, E in Gf; discriminate).
     all: try (intro E; unfold guard_F05f, the_want in Gf; rewrite Hpc, <- Er, E, <- Eo in Gf;
               destruct (stream_path (d_reg d) (nd_of o) (resolve o)); try discriminate; eexists; reflexivity).
@@ -511,7 +551,16 @@ Proof.
     - destruct (the_entry d) as [e|] eqn:He.
       + unfold guard_F05c in Gc. cbv zeta in Gc. rewrite He, Hpc, <- Eo, Hst, <- Er in Gc. cbn [negb andb] in Gc.
         destruct (is_stream r) eqn:Hs; [discriminate|].
-        destruct (json_like (c_media e)) eqn:Hj; [|rewrite orb_true_r in Gc; discriminate].
+        destruct (json_like (c_media e)) eqn:Hj.
+        2:{ (* a text / binary body: delivered exactly when the raw-body accessor was rendered for it *)
+            destruct (handler_schema (cr_content r)) as [h|] eqn:Hh; [|cbn in Gc; discriminate].
+            destruct (raw_accessor (cr_content r) (c_type h)) as [pp|] eqn:Hraw; [destruct pp|]; cbn [andb] in Gc; try discriminate.
+            - apply holds_from_parts; unfold the_want; rewrite Hpc; rewrite <- ?Er, ?He; unfold ideal; rewrite Hs; cbn [andb];
+                rewrite (text_not_binary _ Gc), Gc; [|exact I].
+              rewrite Hpath. unfold secondary_path. rewrite Hst, Hh, Hraw. reflexivity.
+            - apply holds_from_parts; unfold the_want; rewrite Hpc; rewrite <- ?Er, ?He; unfold ideal; rewrite Hs; cbn [andb];
+                rewrite Gc; [|exact I].
+              rewrite Hpath. unfold secondary_path. rewrite Hst, Hh, Hraw. reflexivity. }
         apply andb_true_iff in Gc. destruct Gc as [Gpick _]. apply negb_true_iff in Gpick.
         destruct (handler_schema (cr_content r)) as [h|] eqn:Hh;
           [|exfalso; eapply handler_schema_nonempty; eauto].
